@@ -123,3 +123,22 @@ Definition amap_pop (m : list (Z * arg)) (i : Z) : option (list arg * list (Z * 
   match mine with [] => None | _ => Some (map snd mine, others) end.
 (* frozenset(a.type for a in args): distinct types in first-occurrence order *)
 Definition arg_typeset (args : list arg) : list (list N) := dedup_types (map a_type args).
+
+(* ---- the match object of a directive / a literal of the model's token stream: which groups take part and their text.
+   Hand-written reading of _directive_re (tied by the regex-level stream of tools/harness/c11.py: groups and spans). ---- *)
+Definition g_dollar (o : option (list N)) : option (list N) :=
+  match o with Some ds => Some (ds ++ [36%N]) | None => None end.
+Definition g_width (w : numspec) : option (list N) := match w with NNum ds => Some ds | _ => None end.
+Definition g_star (w : numspec) : option (list N) := match w with NStar _ => Some [42%N] | _ => None end.
+Definition g_star_index (w : numspec) : option (list N) := match w with NStar i => g_dollar i | _ => None end.
+Definition g_length (b : cbody) : option (list N) := match b with BStd (c :: l) _ => Some (c :: l) | _ => None end.
+Definition g_conv (b : cbody) : option (list N) := match b with BStd _ cv => Some [cv] | _ => None end.
+Definition g_c99conv (b : cbody) : option (list N) := match b with BMacro cv _ => Some [cv] | _ => None end.
+Definition g_c99len (b : cbody) : option (list N) := match b with BMacro _ l => Some l | _ => None end.
+Definition match_of_dir (d : directive) (text : list N) (a b : Z) : cmatch :=
+  mkmatch a b text None (g_dollar (d_index d)) (Some (d_flags d))
+    (g_width (d_width d)) (g_star (d_width d)) (g_star_index (d_width d))
+    (g_width (d_prec d)) (g_star (d_prec d)) (g_star_index (d_prec d))
+    (g_length (d_body d)) (g_conv (d_body d)) (g_c99conv (d_body d)) (g_c99len (d_body d)).
+Definition match_of_lit (t : list N) (a b : Z) : cmatch :=
+  mkmatch a b t (Some t) None None None None None None None None None None None None.
